@@ -301,3 +301,208 @@ def c17(ctx):
 CHECKS = {
     'C01': c01, 'C02': c02, 'C03': c03, 'C04': c04, 'C05': c05, 'C06': c06, 'C07': c07, 'C08': c08, 'C09': c09, 'C10': c10, 'C11': c11, 'C12': c12, 'C13': c13, 'C14': c14, 'C16': c16, 'C17': c17, 'C15': c15, 'C18': c18, 'C20': c20,
 }
+
+
+# ----------------------------------------------------------------------
+# C19: every configuration compiles and exposes the documented types / API
+# ----------------------------------------------------------------------
+def c19(ctx):
+    import json
+    import os
+    import re
+    import subprocess
+    from concurrent.futures import ThreadPoolExecutor
+    from . import build, configs, facts, tlc
+    C = configs.Config
+    ctx.assumptions += [
+        'a configuration is "replayed" by compiling it: probe translation units are built from /repo per macro set, explicitly named and with AVEL_AUTO_DETECT + the matching compiler flags',
+        'GCC 12 and Clang 14, C++11/14/17/20; AVX10 is not coverable (no compiler here accepts -mavx10.1); ARM / MSVC arms are not exercised',
+        'API table: a fixed list of ~150 operations taken from the documentation; an operation counts as offered by the width-1 vector if the call expression is well-formed for it',
+    ]
+    inc = os.path.join(build.repo_root(), 'include')
+    singles = ['X86', 'POPCNT', 'LZCNT', 'BMI', 'BMI2', 'PREFETCH', 'SSE2', 'SSE3', 'SSSE3', 'SSE4_1', 'SSE4_2', 'AVX', 'AVX2', 'FMA',
+               'AVX512F', 'AVX512VL', 'AVX512BW', 'AVX512DQ', 'AVX512CD', 'AVX512VPOPCNTDQ', 'AVX512BITALG', 'AVX512VBMI', 'AVX512VBMI2', 'GFNI']
+    named_sets = [[]] + [[m] for m in singles] + [configs.AVX512_LEGACY, configs.AVX512_FULL, ['POPCNT', 'LZCNT', 'BMI2'],
+                                                  ['AVX2', 'FMA', 'LZCNT', 'BMI2'], ['AVX512VL', 'AVX512BW']]
+    if ctx.tier == 'thorough':
+        import itertools
+        subs = ['AVX512VL', 'AVX512BW', 'AVX512DQ', 'AVX512CD', 'AVX512VPOPCNTDQ', 'AVX512BITALG', 'AVX512VBMI', 'AVX512VBMI2', 'GFNI']
+        for r in (2, 3):
+            for comb in itertools.combinations(subs, r):
+                named_sets.append(list(comb))
+        for r in range(2, 5):
+            for comb in itertools.combinations(['POPCNT', 'LZCNT', 'BMI', 'BMI2'], r):
+                named_sets.append(list(comb))
+    matrix = [('g++', 'c++11')]
+    extra_matrix = [('g++', 'c++14'), ('g++', 'c++17'), ('g++', 'c++20'), ('clang++', 'c++11'), ('clang++', 'c++14'), ('clang++', 'c++17'), ('clang++', 'c++20')]
+    jobs = []
+    for ns in named_sets:
+        for (cxx, std) in matrix:
+            for auto in (0, 1):
+                jobs.append((ns, cxx, std, auto))
+    core = [[], ['SSE2'], ['AVX2'], configs.AVX512_FULL] if ctx.tier != 'thorough' else [[]] + [[m] for m in singles] + [configs.AVX512_FULL]
+    for ns in core:
+        for (cxx, std) in extra_matrix:
+            for auto in (0, 1):
+                jobs.append((ns, cxx, std, auto))
+    probe_src = os.path.join(build.HARNESS, 'probe_config.cpp')
+
+    def flags_for(ns, cxx, std, auto):
+        c = C('x', ns, cxx=cxx, std=std, opt='-O0')
+        f = [cxx, '-std=' + std, '-O0', '-I' + inc]
+        f += ['-DAVEL_AUTO_DETECT'] if auto else ['-DAVEL_' + m for m in ns]
+        for m in sorted(c.closed):
+            if m in configs.FLAG and m != 'PREFETCH':
+                f.append(configs.FLAG[m])
+        return f
+
+    PREDEF = {'__SSE2__': 'SSE2', '__SSE3__': 'SSE3', '__SSSE3__': 'SSSE3', '__SSE4_1__': 'SSE4_1', '__SSE4_2__': 'SSE4_2',
+              '__AVX__': 'AVX', '__AVX2__': 'AVX2', '__FMA__': 'FMA', '__AVX512F__': 'AVX512F', '__AVX512VL__': 'AVX512VL',
+              '__AVX512BW__': 'AVX512BW', '__AVX512DQ__': 'AVX512DQ', '__AVX512CD__': 'AVX512CD', '__AVX512VPOPCNTDQ__': 'AVX512VPOPCNTDQ',
+              '__AVX512BITALG__': 'AVX512BITALG', '__AVX512VBMI__': 'AVX512VBMI', '__AVX512VBMI2__': 'AVX512VBMI2', '__GFNI__': 'GFNI',
+              '__POPCNT__': 'POPCNT', '__LZCNT__': 'LZCNT', '__BMI__': 'BMI', '__BMI2__': 'BMI2'}
+
+    def enabled_by_flags(ns, cxx, std):
+        # AVEL_AUTO_DETECT must behave like naming the macros of every extension the compiler flags enable
+        # (compilers enable more than was asked for: x86-64 always has SSE2, -mavx512vbmi turns on AVX-512BW, ...)
+        f = [x for x in flags_for(ns, cxx, std, 0) if not x.startswith('-DAVEL_') and not x.startswith('-I')]
+        p = subprocess.run(f + ['-dM', '-E', '-x', 'c++', '/dev/null'], stdout=subprocess.PIPE, stderr=subprocess.STDOUT, universal_newlines=True)
+        out = set()
+        for ln in p.stdout.splitlines():
+            parts = ln.split()
+            if len(parts) >= 2 and parts[1] in PREDEF:
+                out.add(PREDEF[parts[1]])
+        return sorted(out)
+
+    def run_probe(j):
+        ns, cxx, std, auto = j
+        ns_for_spec = enabled_by_flags(ns, cxx, std) if auto else ns
+        tag = '%s_%s_%s_%d' % ('-'.join(ns) or 'none', cxx, std, auto)
+        exe = os.path.join(ctx.scratch, 'probe_' + tag)
+        cmd = flags_for(ns, cxx, std, auto) + [probe_src, '-o', exe]
+        p = subprocess.run(cmd, stdout=subprocess.PIPE, stderr=subprocess.STDOUT, universal_newlines=True)
+        head = '{"o":"probe","k":"c","named":%s,"flags_for":%s,"auto":%d,"cxx":"%s","std":"%s",' % (json.dumps(ns_for_spec), json.dumps(ns), auto, cxx, std)
+        if p.returncode != 0:
+            err = [l for l in p.stdout.splitlines() if 'error' in l][:1]
+            return tag, head + '"compiled":0,"defined":[],"types":[],"maxw":[],"natw":[],"layout_ok":0,"err":%s,"sig":"none"}' % json.dumps((err or ['?'])[0][-160:])
+        q = subprocess.run([exe], stdout=subprocess.PIPE, stderr=subprocess.PIPE, universal_newlines=True)
+        os.unlink(exe)
+        if q.returncode != 0:
+            return tag, head + '"compiled":1,"defined":[],"types":[],"maxw":[],"natw":[],"layout_ok":0,"sig":"crash"}'
+        return tag, head + '"compiled":1,' + q.stdout.strip() + ',"sig":"none"}'
+
+    ctx.log('compiling %d configuration probes ...' % len(jobs))
+    with ThreadPoolExecutor(max_workers=16) as ex:
+        probe_events = list(ex.map(run_probe, jobs))
+
+    # standalone inclusion of each public header
+    inc_jobs = []
+    for hdr in ('avel/Avel.hpp', 'avel/Aligned_allocator.hpp', 'avel/Cache.hpp', 'avel/Vector.hpp', 'avel/Scalar.hpp'):
+        for (cxx, std) in matrix + extra_matrix:
+            for ns in ([], ['SSE2']):
+                inc_jobs.append((hdr, cxx, std, ns))
+
+    def run_inc(j):
+        hdr, cxx, std, ns = j
+        src = os.path.join(ctx.scratch, 'inc_%s_%s_%s_%s.cpp' % (hdr.replace('/', '_'), cxx, std, '-'.join(ns) or 'none'))
+        with open(src, 'w') as f:
+            f.write('#include <%s>\nint main() { return 0; }\n' % hdr)
+        cmd = flags_for(ns, cxx, std, 0) + ['-fsyntax-only', src]
+        p = subprocess.run(cmd, stdout=subprocess.PIPE, stderr=subprocess.STDOUT, universal_newlines=True)
+        err = [l for l in p.stdout.splitlines() if 'error' in l][:1]
+        return '%s_%s_%s' % (hdr, cxx, std), '{"o":"include","k":"c","header":"%s","named":%s,"cxx":"%s","std":"%s","compiled":%d,"err":%s,"sig":"none"}' % (
+            hdr, json.dumps(ns), cxx, std, int(p.returncode == 0), json.dumps((err or [''])[0][-160:]))
+
+    with ThreadPoolExecutor(max_workers=16) as ex:
+        inc_events = list(ex.map(run_inc, inc_jobs))
+
+    # API table: declared for width 1 => declared and defined for every wider vector
+    api_cfgs = [C('sse2', ['SSE2'], opt='-O0'), C('avx2', ['AVX2', 'FMA'], opt='-O0'), C('avx512legacy', configs.AVX512_LEGACY, opt='-O0')]
+    if ctx.tier == 'thorough':
+        api_cfgs += [C('sse42', ['SSE4_2'], opt='-O0'), C('avx512full', configs.AVX512_FULL, opt='-O0'),
+                     C('avx512full-clang20', configs.AVX512_FULL, cxx='clang++', std='c++20', opt='-O0')]
+    api_src = os.path.join(build.HARNESS, 'probe_api.cpp')
+
+    def run_api(j):
+        cfg, g = j
+        base = [x for x in cfg.flags() if x != '-frounding-math'] + ['-I' + inc, '-I' + build.HARNESS, '-DVH_GROUP=%d' % g, api_src]
+        exe = os.path.join(ctx.scratch, 'api_%s_%d' % (cfg.name, g))
+        p = subprocess.run(base + ['-o', exe], stdout=subprocess.PIPE, stderr=subprocess.STDOUT, universal_newlines=True)
+        if p.returncode != 0:
+            raise build.BuildError('API probe (detection phase) failed to build for %s/%d:\n%s' % (cfg.name, g, p.stdout[-2000:]))
+        decl = subprocess.run([exe], stdout=subprocess.PIPE, universal_newlines=True).stdout.split('\n')
+        os.unlink(exe)
+        p2 = subprocess.run(base + ['-DVH_PHASE=2', '-o', exe], stdout=subprocess.PIPE, stderr=subprocess.STDOUT, universal_newlines=True)
+        undef = set()
+        for m in re.finditer(r"undefined reference to `([^']*)'", p2.stdout):
+            undef.add(m.group(1))
+        if p2.returncode != 0 and not undef:
+            raise build.BuildError('API probe (link phase) failed for another reason than undefined references, %s/%d:\n%s' % (cfg.name, g, p2.stdout[-2000:]))
+        if os.path.exists(exe):
+            os.unlink(exe)
+        return cfg, g, decl, undef
+
+    ctx.log('API probes ...')
+    with ThreadPoolExecutor(max_workers=16) as ex:
+        api_results = list(ex.map(run_api, [(c, g) for c in api_cfgs for g in (8, 16, 32, 64)]))
+
+    def sym_matches(sym, op, tname):
+        # "avel::fmod(avel::Vector<float, 4u>, ...)" against op "fmod", type "4x32f"
+        m = re.match(r'(\d+)x(\d+)([uif])', tname)
+        n, bits, k = m.group(1), m.group(2), m.group(3)
+        cty = {('8', 'u'): 'unsigned char', ('8', 'i'): 'signed char', ('16', 'u'): 'unsigned short', ('16', 'i'): 'short',
+               ('32', 'u'): 'unsigned int', ('32', 'i'): 'int', ('64', 'u'): 'unsigned long', ('64', 'i'): 'long',
+               ('32', 'f'): 'float', ('64', 'f'): 'double'}[(bits, k)]
+        fn = op[3:] if op.startswith('op_') else op
+        opsym = {'mod': 'fmod', 'mod_eq': 'fmod'}.get(fn, fn)
+        return ('avel::%s(' % opsym) in sym and ('<%s, %su>' % (cty, n)) in sym
+
+    api_lines = []
+    n_api = 0
+    for cfg, g, decl, undef in api_results:
+        for ln in decl:
+            parts = ln.split()
+            if len(parts) != 4:
+                continue
+            op, tname, w1, wd = parts[0], parts[1], int(parts[2]), int(parts[3])
+            defined = 0 if any(sym_matches(s, op, tname) for s in undef) else 1
+            n_api += 1
+            if w1 and not (wd and defined) or not defined:
+                api_lines.append(('%s/%d' % (cfg.name, g), '{"o":"api","k":"c","op":"%s","t":"%s","declared_w1":%d,"declared":%d,"defined":%d,"sig":"none"}' % (op, tname, w1, wd, defined)))
+            elif len(api_lines) < 40:
+                api_lines.append(('%s/%d' % (cfg.name, g), '{"o":"api","k":"c","op":"%s","t":"%s","declared_w1":%d,"declared":%d,"defined":%d,"sig":"none"}' % (op, tname, w1, wd, defined)))
+        for s in undef:   # an undefined symbol that no table row explains is still an event
+            if not any(sym_matches(s, ln.split()[0], ln.split()[1]) for ln in decl if len(ln.split()) == 4):
+                api_lines.append(('%s/%d' % (cfg.name, g), '{"o":"api","k":"c","op":%s,"t":"?","declared_w1":1,"declared":1,"defined":0,"sig":"none"}' % json.dumps(s[:150])))
+    ctx.ev['api_table_rows_observed'] = n_api
+
+    # hand everything to TLC
+    allev = [(t, l) for t, l in probe_events] + [(t, l) for t, l in inc_events] + api_lines
+    path = os.path.join(ctx.scratch, 'config.ndjson')
+    with open(path, 'w') as f:
+        f.write('\n'.join(l for _, l in allev) + '\n')
+    cnt, rej = tlc.validate_trace('TraceFacts', path, ctx.scratch, 'config')
+    ctx.ev['states'] += cnt + 1
+    ctx.ev['transitions'] += cnt + 1
+    ctx.ev['facts_judged_by_tlc'] += cnt
+    ctx.ev['traces_validated_against_impl'] += len(allev) - len(rej)
+    ctx.ev['driver_outputs'] += len(allev)
+    ctx.ev['configurations'] = [{'probes': len(probe_events), 'include_probes': len(inc_events), 'api_configs': [c.name for c in api_cfgs]}]
+    for r in rej:
+        tag, line = allev[r - 1]
+        ev = json.loads(line)
+        name = '+'.join(ev.get('named', [])) if 'named' in ev else tag.split('/')[0]
+        cfgname = 'cfg'
+        # give the known-findings matcher a Config to test predicates against
+        cc = C(name or 'none', ev.get('named', []) if 'named' in ev else next((c.macros for c in api_cfgs if c.name == tag.split('/')[0]), []),
+               cxx=ev.get('cxx', 'g++'), std=ev.get('std', 'c++11'))
+        ctx.cfgs = [cc]
+        ctx.classify(ev, [(cc.name, '%s:0:%s' % (ev.get('t', ev.get('header', 'probe')), ev.get('op', 'auto%s' % ev.get('auto', ''))))])
+    for t, l in allev[:3] + api_lines[:2]:
+        ctx.ev['samples'].append(json.loads(l))
+
+    # bounded check of the configuration model itself
+    ctx.mc('MC_Config', mc_cfg([], ['ClosureLaws', 'TableMonotone', 'AliasConsistent']), 'config', workers=8)
+
+
+CHECKS['C19'] = c19
